@@ -2144,7 +2144,11 @@ func (g *Gen) invokeWithContract(c *ssa.CallCommon, ctr *Contract, args []Term, 
 	names := []string{"self"}
 	typs := []types.Type{c.Value.Type()}
 	for i := 0; i < sig.Params().Len(); i++ {
-		names = append(names, sig.Params().At(i).Name())
+		nm := sig.Params().At(i).Name()
+		if nm == "" || nm == "_" {
+			nm = fmt.Sprintf("arg%d", i) // unnamed interface parameters are addressed by position
+		}
+		names = append(names, nm)
 		typs = append(typs, sig.Params().At(i).Type())
 	}
 	over := map[string]Term{}
